@@ -78,7 +78,7 @@ End Equal.
 
 (* ================================================================== property theorems *)
 From Coq Require Import QArith.
-From OV Require Import Model.Deps Model.CritPath Proofs.CritPathQ Proofs.CritCert Proofs.CritImpl.
+From OV Require Import Model.Deps Model.CritPath Proofs.CritPathQ Proofs.CritCert Proofs.CritImpl Proofs.CritMax.
 
 (* ---- (T) the regenerated get_critical_path IS the functional reading Model/CritImpl.cp_model: every numeric instance, every graph,
    every kernel, every behaviour of is_directed_acyclic_graph / dag_longest_path, errors included *)
@@ -134,6 +134,38 @@ Proof.
   exact (cp_model_longest_chain ln lat lcp set_lcp L1 L2 L3 self_dg heap is_dag longest refs heap' G1 G2 ND NN G3 Hw FO H Hsum).
 Qed.
 Print Assumptions C04gen_reported_path_is_longest_chain.
+
+(* ---- (C3) FUNCTIONAL CORRECTNESS modulo networkx: if dag_longest_path returns a path of maximal weight of the graph it is given (`longest_ok`:
+   it is a path of that graph and no path of that graph weighs more) -- and the load nodes of self.dg only carry their load-stage edge, weights
+   and latencies are not negative -- then, whenever the translated get_critical_path returns, the reported latency_cp cells add up to cp_opt
+   and the reported lines are a longest dependency chain of the kernel.  (Proofs/CritMax.v: the look-up of the sink graph edge by edge, every
+   chain of the kernel is a path of the sink graph of the same length, the cells add up to at least the weight of networkx's answer.) *)
+Theorem C04gen_critical_path_is_optimal : forall (I : Type) (ln : I -> Z) (lat lcp : I -> Q) (set_lcp : I -> Q -> I),
+  (forall i v, ln (set_lcp i v) = ln i) -> (forall i v, lat (set_lcp i v) = lat i) -> (forall i v, lcp (set_lcp i v) = v) ->
+  forall (self_dg : nxg Q) (heap : list I) is_dag longest refs heap',
+  NoDup (map ekey (nx_edges_data self_dg)) ->
+  (forall u v w, In (u, v, w) (nx_edges_data self_dg) -> (exists b, v = Line b /\ (0 <= b)%Z) /\ (0 <= node_int u)%Z) ->
+  (forall a v w, In (Load a, v, w) (nx_edges_data self_dg) -> v = Line a) ->
+  NoDup (map ln heap) -> (forall i, In i heap -> (0 <= ln i)%Z) -> (forall i, In i heap -> 0 <= lat i) ->
+  (forall a b w, In (Line a, Line b, w) (nx_edges_data self_dg) -> (pos (map ln heap) a < pos (map ln heap) b)%nat) ->
+  nonneg_edges (to_edges self_dg) -> forward_ok (to_edges self_dg) [] (kernel_of ln lat heap) ->
+  longest_ok (sink_graph QNum ln lat self_dg heap) (longest (sink_graph QNum ln lat self_dg heap)) ->
+  g_get_critical_path QNum ln lat lcp set_lcp is_dag longest self_dg heap = POk (refs, heap') ->
+  let g := to_edges self_dg in let k := kernel_of ln lat heap in let cells := cells_of ln lcp refs heap' in
+  cert_value QNum cells == cp_opt QNum g k /\
+  cells_spec g (lookup k) true cells /\
+  exists e l, chain g (map fst cells) e /\ In (last_of (map fst cells), l) k /\
+    clen g (map fst cells) e l == cells_sum cells /\
+    clen g (map fst cells) e l == cp_opt QNum g k /\
+    longest_chain g k (map fst cells) e l.
+Proof.
+  intros I ln lat lcp set_lcp L1 L2 L3 self_dg heap is_dag longest refs heap' G1 G2 G4 ND NN LN G3 Hw FO HL H. cbv zeta.
+  rewrite g_get_critical_path_eq in H.
+  pose proof (cp_model_optimal ln lat lcp set_lcp L1 L2 L3 self_dg G1 G2 G4 heap ND NN LN G3 Hw FO is_dag longest refs heap' HL H) as Hsum.
+  split; [exact Hsum|].
+  exact (cp_model_longest_chain ln lat lcp set_lcp L1 L2 L3 self_dg heap is_dag longest refs heap' G1 G2 ND NN G3 Hw FO H Hsum).
+Qed.
+Print Assumptions C04gen_critical_path_is_optimal.
 
 (* ---------------------------------------------------------------- non-vacuity: Props/C04.v's g4 / k4 as an nx container and a heap
    (line, latency, latency_cp); line 1 has a load stage (4 cy); dag_longest_path answers Load 1 -> 2 -> 3 -> 4 -> sink *)
